@@ -8,7 +8,8 @@
 From Coq Require Import ZArith NArith List Bool String.
 Require Import Webob.Lib.Val Webob.Lib.PyStr Webob.Lib.C01_Str Webob.Model.MultiDict Webob.Model.C01_EnvView
                Webob.Spec.C01_View Webob.Proofs.C01_env Webob.Proofs.C01_inv Webob.Proofs.C01_coherent
-               Webob.Proofs.C01_names Webob.Proofs.C01_hdrkey Webob.Proofs.C01_listed Webob.Proofs.C01_instance.
+               Webob.Proofs.C01_names Webob.Proofs.C01_hdrkey Webob.Proofs.C01_listed Webob.Proofs.C01_instance
+               Webob.Model.C01_Converter Webob.Proofs.C01_converter.
 Import ListNotations.
 Local Open Scope list_scope.
 
@@ -149,6 +150,23 @@ Section C01.
               forall p' ret, cc_apply m (cc_props P o) = (Some p', ret) ->
                 env_get K_CC (env (snd (cc_mut P CCOP ser_cc cc_apply repaired id m s2))) = Some (EStr (ser_cc p')).
   Proof. exact (copy_independent P CCOP parse_qs parse_cookie parse_cc ser_cc cc_empty cc_apply cc_obs detect_charset). Qed.
+
+  (* a typed write (descriptors.converter.fset: request.range, request.if_range, ...) of a value that is NOT None but has
+     no header text -- its serializer answers None: "", (), [], NoETag, the IfRange of a request without the header --
+     lands after ANY history: the key leaves the environ, nothing else changes, the headers mapping of every long-lived
+     wrapper and of a brand-new Request shows the header absent, every getter stays coherent, and the resulting state
+     is the one assigning None gives *)
+  Theorem C01_write_lands_empty_typed : forall (V : Type) ops s0 (serialize : V -> option str) k v,
+    Inv s0 -> Forall (wf_op P CCOP) ops -> is_cache_key k = false -> serialize v = None ->
+    let s := run ops s0 in
+    let s' := snd (step s (conv_fset P CCOP V serialize k (Some v))) in
+    env_get k (env s') = None /\
+    (forall k', str_eqb k k' = false -> env_get k' (env s') = env_get k' (env s)) /\
+    (forall n w, trans_name n = k -> obsA (GHdr n) w s' = VNone /\ obsF (GHdr n) s' = VNone) /\
+    (forall g w, wf_getter g -> g <> GCharset -> obsA g w s' = obsF g s') /\
+    s' = snd (step s (conv_fset P CCOP V serialize k None)).
+  Proof. exact (fun V => empty_typed_write_lands P CCOP V parse_qs urlencode parse_cookie valid_name cookie_edit parse_cc
+                           ser_cc cc_empty cc_apply cc_obs detect_charset qs_roundtrip qs_empty). Qed.
 End C01.
 
 (* header names are case-insensitive — for all strings, not only latin-1 *)
@@ -210,6 +228,12 @@ Proof. split; [exact i_roundtrip|split; [exact i_empty|]]. apply Inv_init. exact
 Example C01_wf_history : Forall (wf_op str str) stale_after_update /\ wf_getter GCC /\ GCC <> GCharset.
 Proof. split; [repeat constructor|split; [exact I|discriminate]]. Qed.
 
+(* the hypotheses of C01_write_lands_empty_typed hold for request.if_range = "" over a request carrying If-Range *)
+Example C01_empty_typed_ex :
+  is_cache_key (lit "HTTP_IF_RANGE") = false /\ trans_name (lit "If-Range") = lit "HTTP_IF_RANGE" /\
+  ser_nonempty (fun s : str => s) [] = None /\ ser_falsy_none (fun l : list Z => match l with [] => true | _ => false end) (fun _ => lit "bytes=0-4") [] = None.
+Proof. repeat split; vm_compute; reflexivity. Qed.
+
 Print Assumptions C01_cache_inv.
 Print Assumptions C01_initial.
 Print Assumptions C01_coherent.
@@ -232,3 +256,4 @@ Print Assumptions C01_copy_independent.
 Print Assumptions C01_copied_environ_reuses_object_refuted.
 Print Assumptions C01_listed_key_roundtrip.
 Print Assumptions C01_listed_names_unique.
+Print Assumptions C01_write_lands_empty_typed.
